@@ -22,7 +22,7 @@ pub(crate) fn noop_waker() -> Waker {
 }
 
 /// Poll `fut` at most `n` times; `None` if it is still pending afterwards.
-pub(crate) fn poll_n<F: Future>(fut: &mut Pin<Box<F>>, n: usize) -> Option<F::Output> {
+pub(crate) fn poll_n<F: Future + ?Sized>(fut: &mut Pin<Box<F>>, n: usize) -> Option<F::Output> {
     let waker = noop_waker();
     let mut cx = Context::from_waker(&waker);
     let mut i = 0;
@@ -96,6 +96,9 @@ impl<T> StackArc<T> {
     }
     /// Safety: `self` must outlive every clone of the returned `Arc` and must not move afterwards.
     pub(crate) unsafe fn arc(&self) -> std::sync::Arc<T> {
+        if native_replay() {
+            return std::sync::Arc::new(std::ptr::read(&self.data));
+        }
         std::sync::Arc::from_raw(&self.data as *const T)
     }
 }
@@ -360,7 +363,31 @@ pub(crate) fn from_utf8_accept(v: &[u8]) -> Result<&str, core::str::Utf8Error> {
 /// A `Box<T>` that points into the caller's stack frame (see `mock::MockStream`).  Only for harnesses that stub
 /// `<Global as Allocator>::deallocate` (STUB "nofree"): the box is "freed" by the code under test.
 pub(crate) fn stack_box<T>(slot: &mut std::mem::ManuallyDrop<T>) -> Box<T> {
+    if native_replay() {
+        // a native replay has a real allocator and no `nofree` stub: hand over a real heap box
+        return Box::new(unsafe { std::mem::ManuallyDrop::take(slot) });
+    }
     unsafe { Box::from_raw(&mut **slot as *mut T) }
+}
+
+/// A `Vec<u8>` whose buffer is the caller's stack array (see `stack_box`); a real copy in a native replay.
+pub(crate) fn stack_vec<const N: usize>(slot: &mut std::mem::ManuallyDrop<[u8; N]>) -> Vec<u8> {
+    if native_replay() {
+        return slot.to_vec();
+    }
+    unsafe { Vec::from_raw_parts(slot.as_mut_ptr(), N, N) }
+}
+
+/// Set by the replay runner (bin/check inserts the call into the generated playback test): stubs are not applied
+/// in a native replay, so fabricated stack-resident boxes must become real heap objects there.
+static mut NATIVE_REPLAY: bool = false;
+pub(crate) fn set_native_replay() {
+    unsafe {
+        NATIVE_REPLAY = true;
+    }
+}
+pub(crate) fn native_replay() -> bool {
+    unsafe { NATIVE_REPLAY }
 }
 
 /// No-op replacement for `<Global as Allocator>::deallocate`: nothing is ever freed in harnesses that use
@@ -608,4 +635,27 @@ pub(crate) mod script_source {
             Ok(())
         }
     }
+}
+
+/// Naive replacements for core's word-at-a-time byte searches: their fast paths depend on the (symbolic) alignment
+/// of the haystack pointer, which makes symex explore every alignment.
+pub(crate) fn memrchr_naive(x: u8, text: &[u8]) -> Option<usize> {
+    let mut i = text.len();
+    while i > 0 {
+        i -= 1;
+        if text[i] == x {
+            return Some(i);
+        }
+    }
+    None
+}
+pub(crate) fn memchr_naive(x: u8, text: &[u8]) -> Option<usize> {
+    let mut i = 0;
+    while i < text.len() {
+        if text[i] == x {
+            return Some(i);
+        }
+        i += 1;
+    }
+    None
 }
